@@ -144,10 +144,10 @@ Section Sim.
     (first = true -> i = istate0 /\ o = istate0 /\ lastprev w = None) ->
     (first = false -> lastprev w <> None) ->
     exists tail, strip (w_out (walk_loop (lift1 f1) first w p)) = strip (w_out w) ++ tail /\
-                 snd (interp_from o tail) = map psi (snd (interp_from i p)).
+                 snd (interp_from o tail) = map psi (snd (interp_from i p)) /\ wf_path tail.
   Proof.
     induction p as [|[c a] r IH]; intros w i o first HI Hc Hs Hwf Hpre Hf Hnf.
-    - exists []. cbn [walk_loop interp_from snd map]. rewrite app_nil_r. split; reflexivity.
+    - exists []. cbn [walk_loop interp_from snd map]. rewrite app_nil_r. split; [reflexivity|split; [reflexivity|constructor]].
     - inversion Hwf as [|? ? Hca Hr]; subst. destruct Hpre as [Hp1 Hp2].
       cbn [walk_loop]. rewrite walk_step_lift1.
       rewrite Hs, Hc.
@@ -166,7 +166,7 @@ Section Sim.
       { unfold w1, emit. unfold lastprev. cbn [w_out]. rewrite rev_app_distr. cbn [rev app]. rewrite Hc. reflexivity. }
       assert (Hw1o : strip (w_out w1) = strip (w_out w) ++ [(c2, a2)]).
       { unfold w1, emit, strip. cbn [w_out]. rewrite map_app. reflexivity. }
-      destruct (IH w1 (fst (interp_cmd i c a)) (fst (interp_cmd o c2 a2)) false) as [tail [Ht1 Ht2]].
+      destruct (IH w1 (fst (interp_cmd i c a)) (fst (interp_cmd o c2 a2)) false) as [tail [Ht1 [Ht2 Hwt]]].
       + rewrite Hw1p. exact HI'.
       + exact Hw1c.
       + exact Hw1s.
@@ -180,18 +180,29 @@ Section Sim.
           destruct (interp_cmd o c2 a2) as [o1 so] eqn:Eo. destruct (interp_cmd i c a) as [i1 si] eqn:Ei.
           cbn [fst snd] in *.
           destruct (interp_from o1 tail) as [o2 so2]. destruct (interp_from i1 r) as [i2 si2].
-          cbn [snd] in *. rewrite map_app, Hseg, Ht2. reflexivity.
+          cbn [snd] in *. split; [rewrite map_app, Hseg, Ht2; reflexivity|constructor; [exact Hwo|exact Hwt]].
   Qed.
 
   Theorem walk1_sim (p : pathR) :
     wf_path p -> pre_all true istate0 p -> interpR (walkR (lift1 f1) p) = map psi (interpR p).
   Proof.
     intros Hwf Hpre. unfold walk, interp.
-    destruct (sim_suffix p (mk_w origin origin []) istate0 istate0 true) as [tail [Ht1 Ht2]];
+    destruct (sim_suffix p (mk_w origin origin []) istate0 istate0 true) as [tail [Ht1 [Ht2 _]]];
       try reflexivity; try assumption; try (intros _; repeat split; reflexivity); try discriminate.
     match goal with |- snd (interp_from _ ?x) = _ =>
       change x with (strip (w_out (walk_loop (lift1 f1) true (mk_w origin origin []) p))) end.
     rewrite Ht1. cbn [w_out strip map app]. exact Ht2.
+  Qed.
+
+  (* ... and the rewritten path is again well formed (so that rewrites can be chained) *)
+  Theorem walk1_wf (p : pathR) :
+    wf_path p -> pre_all true istate0 p -> wf_path (walkR (lift1 f1) p).
+  Proof.
+    intros Hwf Hpre. unfold walk.
+    destruct (sim_suffix p (mk_w origin origin []) istate0 istate0 true) as [tail [Ht1 [_ Hwt]]];
+      try reflexivity; try assumption; try (intros _; repeat split; reflexivity); try discriminate.
+    change (wf_path (strip (w_out (walk_loop (lift1 f1) true (mk_w origin origin []) p)))).
+    rewrite Ht1. cbn [w_out strip map app]. exact Hwt.
   Qed.
 
   (* the output of the walk is the list of the callback's outputs: any per-command property lifts *)
